@@ -66,8 +66,12 @@ claim("C14", "exploration",
       "FrozenAttributes.extend/remove decided by a complete finite split over key presence with symbolic values; copy_with_new_atts and "
       "new_with_atts_removed proved pointwise (for every run: same text, attributes = extend/remove of the old ones); shared_atts proved "
       "to report only key/value pairs that every run with characters holds (loop invariant over a symbolic attribute key, all() as a "
-      "quantified fact); parse_args, copy_with_new_str, fmtfuncs decided by exhaustive-finite / bounded evaluation against the statement.",
-      "Attribute keys within the 8 names; parse_args, copy_with_new_str not under deductive contract; known finding: style values not type-checked.",
+      "quantified fact, result not retained by the value); copy_with_new_str proved for uniformly formatted values and ANY new text; "
+      "fmtstr(text free of ESC[, **attributes) - the real fmtstr with the real parse_args inlined - proved by a complete finite split over "
+      "the 256 sets of attribute keys (one run with exactly those attributes; ValueError iff fg / bg is not a colour code); the name / "
+      "positional / style= spellings of parse_args and the fmtfuncs helpers are decided by exhaustive-finite / bounded evaluation.",
+      "Attribute keys within the 8 names; the string-name spellings of parse_args are not under deductive contract (table lookups on "
+      "symbolic strings); known finding: style values not type-checked.",
       "finite split + contract-based deductive verification (pointwise map contracts) + exhaustive-finite evaluation of parse_args", "DESIGN 9/C14")
 claim("C19", "exploration",
       "FmtStr.__eq__/__hash__ and Chunk.__eq__/__hash__ proved against 'equal iff same terminal string' / 'hash is a function of it'; "
@@ -98,9 +102,9 @@ claim("C15", "exploration",
       "the contracts of shared_atts, new_with_atts_removed, __add__/__radd__ and .s.  Everything else is bounded only: 34 delegated str "
       "methods, split (literal and regex), splitlines, ljust/rjust with a fill character, join on random, enumerated and derived values "
       "against str on the text, per-character formatting of pieces, shared/invented formatting.",
-      "__getattr__ delegation and regex splitting are outside the deductive subset (stated in DESIGN 10); ASSUMED callee contract: "
-      "fmtstr(blanks, **attributes read from existing runs) is one run of blanks with those attributes or ValueError (parse_args is "
-      "table/reflection code decided by C14's bounded suite); known finding: other line boundaries.",
+      "__getattr__ delegation and regex splitting are outside the deductive subset (stated in DESIGN 10); the callee contract of "
+      "fmtstr(blanks, **attributes) used by the proof is verified under C14 (complete split over the 256 key sets); known finding: "
+      "other line boundaries.",
       "contract-based deductive verification of ljust/rjust (AST->VC, cvc5/z3) + bounded run-time checking against str for the reflection/regex driven methods", "DESIGN 9/C15")
 claim("C16", "exploration",
       "Bounded only: every string <=6 over {a,b,space,tab,newline} x columns 1..4 plus random multi-format values against an independent "
